@@ -12,8 +12,9 @@ task `t` is dropped at its current await point) and `panic t` (its executor pani
 
 * `cancel_restores`        — repaired configuration: once no task is left, the quiescent invariant `Q` holds.
 * `cancel_restores_asis_partial` — every configuration (also the code as it is): `Q` without its batch clause.
-* `f11_asis_aborts`, `f12_asis_aborts`, `f40_asis_session_overlaps_publication` — the code as it is violates
-  the batch clause / the phase discipline (findings F11, F12, F40).
+* `f11_asis_aborts`, `f40_asis_session_overlaps_publication` — the code as it is violates the batch clause / the
+  phase discipline (findings F11, F40); `f12_original_aborts` — so did the original `input_session()` (F12,
+  repaired in /repo by 7a67ce5).
 * `entry_has_live_owner`, `half_published_has_live_publisher`, `session_excludes_queries` — the same facts as
   invariants of *every* reachable state, not only the quiescent ones.
 * `panic_reaches_caller`   — after an executor panic the task ends `panicked` (or `cancelled` if the caller
@@ -147,27 +148,31 @@ theorem session_excludes_queries {cfg : Cfg} (h20 : cfg.f40 = true) {s : State} 
 
 /-- F11: a query is dropped while `done_backward_projection` awaits `upgrade_to_exclusive()` -/
 def f11Trace : List Ev := [.spawn 0 1 false none, .bpLock 0, .bpUp 0, .cancel 0]
-/-- F12: `input_session()` is dropped while it waits for the phase lock -/
+/-- F12 (original order, before 7a67ce5): `input_session()` is dropped while it waits for the phase lock -/
 def f12Trace : List Ev := [.sStart 0, .sBump 0, .cancel 0]
 /-- F40: a query is dropped inside its guarded publication block; a session starts before the continuation ran -/
-def f40Trace : List Ev := [.spawn 0 1 false none, .lock 0, .gEnter 0, .cancel 0, .sStart 1, .sBump 1, .sAcquire 1]
+def f40Trace : List Ev := [.spawn 0 1 false none, .lock 0, .gEnter 0, .cancel 0, .sStart 1, .sAcquire 1, .sBump 1]
 
 /-- F11 (as is): an active batch is dropped — `Q.noBatchDropped` fails although no task is left -/
 theorem f11_asis_aborts :
     ∃ s, run (init Cfg.asIs) f11Trace = some s ∧ s.aborted = true ∧ s.bst 0 = .dropped ∧ s.tasks 0 = none := by
   refine ⟨(run (init Cfg.asIs) f11Trace).get (by decide), by simp, ?_, ?_, ?_⟩ <;> decide
 
-/-- F12 (as is): the session's batch is dropped and the epoch stays bumped -/
-theorem f12_asis_aborts :
-    ∃ s, run (init Cfg.asIs) f12Trace = some s ∧ s.aborted = true ∧ s.epoch = 1 ∧ s.tasks 0 = none := by
-  refine ⟨(run (init Cfg.asIs) f12Trace).get (by decide), by simp, ?_, ?_, ?_⟩ <;> decide
+/-- F12 (the original order; repaired in /repo by 7a67ce5): the session's batch is dropped and the epoch stays bumped -/
+theorem f12_original_aborts :
+    ∃ s, run (init Cfg.original) f12Trace = some s ∧ s.aborted = true ∧ s.epoch = 1 ∧ s.tasks 0 = none := by
+  refine ⟨(run (init Cfg.original) f12Trace).get (by decide), by simp, ?_, ?_, ?_⟩ <;> decide
+
+/-- … and with the lock taken first the same drop (while waiting for the lock) is harmless, in the code as it is now -/
+example : (run (init Cfg.asIs) f12Trace).isNone = true := by decide
+example : (run (init Cfg.asIs) [.sStart 0, .cancel 0]).map (fun s => (s.aborted, s.epoch, s.nextBid)) = some (false, 0, 0) := by decide
 
 /-- F40 (as is): a session holds the exclusive phase lock while a detached continuation is still inside its
     publication block — `session_excludes_queries` fails -/
 theorem f40_asis_session_overlaps_publication :
     ∃ s, run (init Cfg.asIs) f40Trace = some s ∧ s.writer = some 1 ∧
-      (s.tasks 0).map (fun T => (T.pc, T.detached, T.rd)) = some (Pc.g0, true, false) := by
-  refine ⟨(run (init Cfg.asIs) f40Trace).get (by decide), by simp, ?_, ?_⟩ <;> decide
+      (s.tasks 0).map (fun T => (T.pc, T.detached, T.rd)) = some (Pc.g0, true, false) ∧ s.epoch = 1 := by
+  refine ⟨(run (init Cfg.asIs) f40Trace).get (by decide), by simp, ?_, ?_, ?_⟩ <;> decide
 
 /-- the same schedules in the repaired configuration: F11's trace is harmless … -/
 example : (run (init Cfg.fixed) f11Trace).map (fun s => (s.aborted, s.nextBid)) = some (false, 0) := by decide
@@ -283,6 +288,20 @@ theorem running_task_can_step {cfg : Cfg} {s : State} (hr : Reachable cfg s) {t 
   · exact ⟨.write t, rfl, by simp, by simp [step, hT, hF, h]⟩
   · exact ⟨.finish t, rfl, by simp, by cases hd : T.detached <;> simp [step, hT, hF, h, hd]⟩
   · exact ⟨.gEnter t, rfl, by simp, by simp [step, hT, h]⟩
+
+/-- **no_stall_partial**: what is proved of "no deadlock after a cancellation" — in every reachable state of every
+    configuration (a) a task waiting for a computing entry can be woken or the entry has a live owner holding its
+    guard, (b) the same for a backward-projection entry, (c) every task that holds a guard and is not waiting has an
+    enabled step.  (The global statement is `C05_full_statement`.) -/
+theorem no_stall_partial {cfg : Cfg} {s : State} (hr : Reachable cfg s) {t : Tid} {T : Task} {top : Frame} {rest : List Frame}
+    (hT : s.tasks t = some T) (hF : T.frames = top :: rest) :
+    (T.pc = .waitC → (step s (.wake t)).isSome = true ∨
+      ∃ e T', s.comp top.key = some e ∧ s.tasks e.owner = some T' ∧ ∃ f ∈ T'.frames, f.lock = true ∧ f.key = top.key) ∧
+    (T.pc = .waitB → (step s (.wake t)).isSome = true ∨
+      ∃ o T', s.bpl top.key = some o ∧ s.tasks o = some T' ∧ ∃ f ∈ T'.frames, f.bp = true ∧ f.key = top.key) ∧
+    (T.pc = .locked ∨ T.pc = .caught ∨ T.pc = .g1 ∨ T.pc = .g2 ∨ T.pc = .bpUp →
+      ∃ e, taskOf e = t ∧ e ≠ .cancel t ∧ (step s e).isSome = true) :=
+  ⟨waiter_has_live_owner hr hT hF, bp_waiter_has_live_owner hr hT hF, running_task_can_step hr hT⟩
 
 /-- a future can be dropped at every await point: `cancel` is enabled for every live task that still has a caller -/
 theorem cancel_always_enabled {s : State} {t : Tid} {T : Task} (hT : s.tasks t = some T) (hd : T.detached = false) :
